@@ -1,8 +1,9 @@
 #!/usr/bin/env python3
-"""tools_addrow.py <row text>: insert one table row before the ROUND12_MORE placeholder of DESIGN.md."""
+"""tools_addrow.py <row text> [round]: insert one table row before the ROUND<round>_MORE placeholder of DESIGN.md (default round 12)."""
 import sys
 p='/verif/DESIGN.md'; s=open(p).read()
 row=sys.argv[1].rstrip('\n')
-assert 'ROUND12_MORE' in s
-s=s.replace('ROUND12_MORE', row+'\nROUND12_MORE',1)
+ph='ROUND%s_MORE' % (sys.argv[2] if len(sys.argv) > 2 else '12')
+assert ph in s
+s=s.replace(ph, row+'\n'+ph,1)
 open(p,'w').write(s)
